@@ -96,7 +96,7 @@ def r2(ctx):
         ind = [w for w in assigns(b, R) if w.target == ('field', ('param', 'self'), 'in_dim')]
         affw = [w for w in content_field_writes(F, 'aff') if w[0] is b]
         ok = False
-        if len(ind) == 1 and is_call(ind[0].value, 'Vec::len') and affw:
+        if len(ind) == 1 and is_call(ind[0].value, 'Vec::len', '[T]::len') and affw:
             keep = ind[0].value[2][0]
             # the columns concatenated are indexed by the same keep list
             for w in affw:
@@ -135,13 +135,29 @@ def r2(ctx):
                        'IntoIterator::into_iter', 'Iterator::copied', 'Iterator::cloned'}
             if stages and 'Iterator::enumerate' in names:
                 mask_ok = k == ('param', 'mask') and all(n_ in allowed for n_ in names)
-                for x in stages:
-                    if x[1] == 'Iterator::filter':
-                        cb_, cr_ = prune.closure_ret(F, x[2][1])
-                        mask_ok = mask_ok and bool(cr_) and len(cr_) == 1 and s(cr_[0]) == ('field', ('param', cb_.arg_names()[-1]), '1')
-                    if x[1] == 'Iterator::map':
-                        cb_, cr_ = prune.closure_ret(F, x[2][1])
-                        mask_ok = mask_ok and bool(cr_) and len(cr_) == 1 and s(cr_[0]) == ('field', ('param', cb_.arg_names()[-1]), '0')
+                if mask_ok:
+                    # the chain is decided element by element (caseinterp): a mask entry `true` at position P yields P, `false` yields nothing
+                    from ..caseinterp import pipe_outputs, Unknown as CUnknown, atom
+                    kind = {'Iterator::map': 'map', 'Iterator::filter': 'filter', 'Iterator::filter_map': 'filter_map', 'Iterator::enumerate': 'enumerate'}
+                    pst = []
+                    for x in reversed(stages):
+                        if x[1] in kind:
+                            if x[1] == 'Iterator::enumerate':
+                                pst.append(('enumerate',))
+                            else:
+                                c_ = x[2][1]
+                                if not (c_[0] == 'closure' and not c_[2]):
+                                    mask_ok = False
+                                    break
+                                pst.append((kind[x[1]], ('clo', c_[1], [])))
+                    if mask_ok:
+                        try:
+                            P_ = atom('P')
+                            t_, _ = pipe_outputs(F, {}, ('pipe', None, pst), True, P_)
+                            f_, _ = pipe_outputs(F, {}, ('pipe', None, pst), False, P_)
+                            mask_ok = t_ == [P_] and f_ == []
+                        except CUnknown:
+                            mask_ok = False
                 if not mask_ok:
                     ok = False
         if ok:
